@@ -307,6 +307,8 @@ func c20Extract() (*c20Facts, error) {
 	bufName := ""
 	makes := map[string]ast.Expr{}
 	var keepExpr ast.Expr
+	keepName := ""
+	defines := map[string]ast.Expr{}
 	funcs := map[string]bool{}
 	ast.Inspect(run.Body, func(n ast.Node) bool {
 		switch v := n.(type) {
@@ -321,11 +323,23 @@ func c20Extract() (*c20Facts, error) {
 						makes[id.Name] = c.Args[1]
 					}
 				}
-				if id.Name == "keep" && v.Tok == token.DEFINE && keepExpr == nil {
-					keepExpr = v.Rhs[i]
+				if v.Tok == token.DEFINE {
+					if _, dup := defines[id.Name]; !dup {
+						defines[id.Name] = v.Rhs[i]
+					}
 				}
 			}
 		case *ast.CallExpr:
+			// overlap = copy(buf, window[len(window)-K:]) : K names the number of bytes kept
+			if fn, ok := v.Fun.(*ast.Ident); ok && fn.Name == "copy" && len(v.Args) == 2 && keepName == "" {
+				if sl, ok := v.Args[1].(*ast.SliceExpr); ok && sl.High == nil {
+					if be, ok := sl.Low.(*ast.BinaryExpr); ok && be.Op == token.SUB {
+						if k, ok := be.Y.(*ast.Ident); ok {
+							keepName = k.Name
+						}
+					}
+				}
+			}
 			if sel, ok := v.Fun.(*ast.SelectorExpr); ok {
 				if x, ok := sel.X.(*ast.Ident); ok {
 					if x.Name == "unicode" {
@@ -345,6 +359,9 @@ func c20Extract() (*c20Facts, error) {
 		}
 		return true
 	})
+	if keepName != "" {
+		keepExpr = defines[keepName]
+	}
 	be, ok := makes[bufName]
 	if !ok {
 		return nil, fmt.Errorf("no make([]byte, …) found for the read buffer %q", bufName)
@@ -357,9 +374,9 @@ func c20Extract() (*c20Facts, error) {
 		if f.keep, f.keepLean, err = ev.num(keepExpr); err != nil {
 			return nil, err
 		}
-		f.keepSrc = "keep := " + c20NodeText(fset, src, keepExpr)
+		f.keepSrc = keepName + " := " + c20NodeText(fset, src, keepExpr)
 	} else {
-		f.keep, f.keepLean, f.keepSrc = 0, "0", "(no `keep := …` statement in RunPackedBinary: nothing of a block is kept)"
+		f.keep, f.keepLean, f.keepSrc = 0, "0", "(no `copy(buf, window[len(window)-keep:])` in RunPackedBinary: nothing of a block is kept)"
 	}
 	for k := range funcs {
 		f.skipFuncs = append(f.skipFuncs, k)
@@ -796,7 +813,22 @@ func c20Gen(g *Gen) {
 	if f.b1+f.b2 > stride {
 		stride = f.b1 + f.b2
 	}
-	limit := 3*stride + 2*len(M) + 8
+	periods := 3
+	if g.Thorough() {
+		periods = 6
+	}
+	limit := periods*stride + 2*len(M) + 8
+	if f.keep >= f.bufSize {
+		// the slice handed to Read becomes empty after the first block: the loop cannot make
+		// progress on any file longer than the buffer (model: hang). A few cases show it;
+		// the sweep would only wait for time-outs.
+		for _, n := range []int{0, f.bufSize, 4095} {
+			emit("no room in the buffer", true, n, 0, nil, "", 0, 3)
+		}
+		emit("no room in the buffer", false, 3*f.bufSize, 1, nil, "", 0, 0)
+		os.RemoveAll(c20Scratch)
+		return
+	}
 
 	// 1. corpus: the sizes that failed before the repair (for the geometry of that time) and their neighbours
 	for _, n := range []int{4095, 4107, 4108, 4123, 8191, 4096 - len(M), 4096 + 4124 + 4095} {
@@ -861,6 +893,9 @@ func c20Gen(g *Gen) {
 				}
 				for _, gap := range gaps {
 					kind := (pi + d + 1000) % 2
+					if g.Thorough() && (pi+gap)%3 == 2 {
+						kind = 2
+					}
 					emit("partial marker", true, off+len(p)+gap, kind, []c20Plant{{off, p}}, "", 0, 11)
 				}
 			}
@@ -919,7 +954,7 @@ func c20Gen(g *Gen) {
 
 func init() {
 	register("C20", &Prop{
-		Timeout:          20 * time.Second,
+		Timeout:          60 * time.Second,
 		Setup:            c20Setup,
 		Gen:              c20Gen,
 		Run:              c20Run,
